@@ -1,10 +1,18 @@
 (* C15 correspondence harness, second part: codecs, digests, printf-style formatting, wrapper verbs.
    Falls back to C15.Harness.chk for the kinds defined there. *)
-From Miller Require Import Base.Bytes C15.Model C15.Harness C15.ModelCodec C15.ModelHash.
+From Miller Require Import Base.Bytes C15.Model C15.Harness C15.ModelCodec C15.ModelHash C15.ModelFmt.
 Open Scope Z_scope.
 
 Definition opt_chk (r : option bytes) (a : Z) (o : bytes) : bool :=
   match r with Some x => (a =? 0) && beqb x o | None => a =? 1 end.
+
+Definition numv_of (a b : Z) : numv := if b =? 0 then VInt a else VFloat a.
+Definition fres_chk (r : fres) (s3 o : bytes) : bool :=
+  match r with
+  | FOut x => beqb s3 [] && beqb x o
+  | FError => beqb s3 (B "E")
+  | FUnmodelled => false
+  end.
 
 Definition chk2 (c : Z * Z * Z * bytes * bytes * bytes * bytes) : bool :=
   let '(k, a, b, s1, s2, s3, o) := c in
@@ -17,5 +25,8 @@ Definition chk2 (c : Z * Z * Z * bytes * bytes * bytes * bytes) : bool :=
   | 41 => beqb (sha1 s1) o
   | 42 => beqb (sha256 s1) o
   | 43 => beqb (sha512 s1) o
+  | 50 => fres_chk (fmtnum (numv_of a b) s2 s1) s3 o
+  | 51 => fres_chk (fmtifnum (numv_of a b) s2 s1) s3 o
+  | 52 => beqb (hexfmt (numv_of a b) s2) o
   | _ => chk c
   end.
